@@ -1503,3 +1503,87 @@ Section Main.
     - apply Fin. discriminate.
   Qed.
 End Main.
+
+(* ---------- corollaries ---------- *)
+
+(* the result does not depend on how the operands are stored: any two representations of the same two
+   denotations (other column order, other projector, other row order) give the same denotation *)
+Corollary join_independent_of_layout op a a' b b' :
+  wf_rel a -> wf_rel a' -> wf_rel b -> wf_rel b' -> abs a = abs a' -> abs b = abs b' ->
+  exists s s', join_rel op a b = JOk s /\ join_rel op a' b' = JOk s' /\ den s = den s'.
+Proof.
+  intros Ha Ha' Hb Hb' Ea Eb.
+  destruct (positional_join_refines_spec op a b Ha Hb) as (s & E1 & D1 & _).
+  destruct (positional_join_refines_spec op a' b' Ha' Hb') as (s' & E2 & D2 & _).
+  exists s, s'. split; [exact E1|]. split; [exact E2|]. rewrite Ea, Eb in D1. congruence.
+Qed.
+
+(* no index handed to a row by the engine lies outside the row (so the default cell of [pick] is never read
+   and the Go code cannot panic with "index out of range" on a well-formed pair of operands) *)
+Lemma join_indices_in_range op a b : wf_rel a -> wf_rel b ->
+  let common := ns_intersect (r_attrs a) (r_attrs b) in
+  let lo := fst (partitionNames op (r_attrs a) (r_attrs b) common) in
+  let ro := snd (partitionNames op (r_attrs a) (r_attrs b) common) in
+  exists lki rki loi roi,
+    getIndices (r_attrs a) common = Some lki /\ getIndices (r_attrs b) common = Some rki /\
+    getIndices (r_attrs a) lo = Some loi /\ getIndices (r_attrs b) ro = Some roi /\
+    (forall v, In v (r_rows a) -> inrange (compose (r_p a) lki) (length v) /\ inrange (compose (r_p a) loi) (length v)) /\
+    (forall v, In v (r_rows b) -> inrange (compose (r_p b) rki) (length v) /\ inrange (compose (r_p b) roi) (length v)).
+Proof.
+  intros Ha Hb common lo ro.
+  pose proof Ha as (HndA & _ & _ & _ & HwA & _). pose proof Hb as (HndB & _ & _ & _ & HwB & _).
+  destruct (partition_good op _ _ HndA HndB) as [Glo Gro _ _ _ _ _ _]. fold common lo ro in Glo, Gro.
+  assert (HcA : incl common (r_attrs a)) by (intros nm H; apply ns_intersect_in in H; tauto).
+  assert (HcB : incl common (r_attrs b)) by (intros nm H; apply ns_intersect_in in H; tauto).
+  destruct (getIndices_spec a Ha common HcA) as (lki & Elk & Flk).
+  destruct (getIndices_spec b Hb common HcB) as (rki & Erk & Frk).
+  destruct (getIndices_spec a Ha lo Glo) as (loi & Elo & Flo).
+  destruct (getIndices_spec b Hb ro Gro) as (roi & Ero & Fro).
+  exists lki, rki, loi, roi. repeat split; try assumption.
+  - rewrite (HwA v H). apply (F2_inrange a Ha _ _ Flk).
+  - rewrite (HwA v H). apply (F2_inrange a Ha _ _ Flo).
+  - rewrite (HwB v H). apply (F2_inrange b Hb _ _ Frk).
+  - rewrite (HwB v H). apply (F2_inrange b Hb _ _ Fro).
+Qed.
+
+(* Count() of a Relation (the number of stored rows) is the cardinality of its denotation *)
+Lemma row_tuple_inj r (v v' : row) : wf_rel r -> In v (r_rows r) -> In v' (r_rows r) ->
+  row_tuple (r_attrs r) (r_p r) v = row_tuple (r_attrs r) (r_p r) v' -> v = v'.
+Proof.
+  intros Hwf Hv Hv' E. pose proof Hwf as (Hnd & Hlen & Hndp & Hr & Hw & _).
+  destruct (row_tuple_names (r_attrs r) (r_p r) v Hlen) as (t & Et & _ & _ & Ht).
+  destruct (row_tuple_names (r_attrs r) (r_p r) v' Hlen) as (t' & Et' & _ & _ & Ht').
+  assert (Ett : t = t') by congruence. subst t'.
+  assert (Hsurj : incl (seq 0 (length (r_attrs r))) (r_p r)).
+  { apply NoDup_length_incl; [exact Hndp | rewrite seq_length; lia|].
+    intros c Hc. apply in_seq. specialize (Hr c Hc). lia. }
+  apply (nth_ext v v' cell0 cell0); [rewrite (Hw v Hv), (Hw v' Hv'); reflexivity|].
+  intros c Hc. rewrite (Hw v Hv) in Hc.
+  assert (Hin : In c (r_p r)) by (apply Hsurj, in_seq; lia).
+  apply In_nth_error in Hin as (i & Hi).
+  assert (Hlt : i < length (r_attrs r)) by (rewrite <- Hlen; apply nth_error_Some; congruence).
+  apply nth_error_Some in Hlt. destruct (nth_error (r_attrs r) i) as [nm|] eqn:En; [|congruence].
+  assert (Hc' : col r nm c) by (exists i; split; assumption).
+  pose proof (col_tget r Hwf nm c v Hc') as E1. pose proof (col_tget r Hwf nm c v' Hc') as E2.
+  rewrite <- Ht in E1. rewrite <- Ht' in E2. congruence.
+Qed.
+
+Lemma vsort_nodup_length l : NoDup l -> length (vsort l) = length l.
+Proof.
+  intros H. apply Nat.le_antisymm.
+  - apply NoDup_incl_length; [apply ssorted_nodup, vsort_sorted | intros x Hx; apply vsort_in, Hx].
+  - apply NoDup_incl_length; [exact H | intros x Hx; apply vsort_in, Hx].
+Qed.
+
+Theorem count_is_cardinality r : wf_rel r -> length (abs r) = length (r_rows r).
+Proof.
+  intros Hwf. pose proof Hwf as (_ & _ & _ & _ & _ & Hnd & _). unfold abs.
+  rewrite vsort_nodup_length, map_length; [reflexivity|].
+  assert (G : forall rows, NoDup rows -> incl rows (r_rows r) -> NoDup (map (row_tuple (r_attrs r) (r_p r)) rows)).
+  { induction rows as [|v rows IH]; intros Hn Hi; [constructor|].
+    inversion Hn as [|? ? Hv Hn']; subst. cbn [map]. constructor.
+    - intros Hin. apply in_map_iff in Hin as (v' & E & Hv'). apply Hv.
+      rewrite (row_tuple_inj r v v' Hwf); [exact Hv' | apply Hi; left; reflexivity | apply Hi; right; exact Hv' | symmetry; exact E].
+    - apply IH; [exact Hn' | intros x Hx; apply Hi; right; exact Hx]. }
+  apply G; [exact Hnd | apply incl_refl].
+Qed.
